@@ -50,6 +50,22 @@ def same_shape(fn, ref_src: str) -> bool:
     return fn is not None and ast.dump(fn) == ast.dump(ast.parse(ref_src).body[0])
 
 
+def universe(repo: Path):
+    """Node types offered by `refurb gen` and the codes already taken: needed by the search even
+    when gen.py itself no longer translates."""
+    mp = mapping(repo / "refurb" / "visitor" / "mapping.py")
+    import mypy.nodes
+    import mypy.patterns
+    nodes = {}
+    for cls in mp.values():
+        obj = getattr(mypy.nodes, cls, None) or getattr(mypy.patterns, cls, None)
+        if obj is None:
+            raise TranslateError(f"node class {cls} not found in mypy")
+        nodes[cls] = obj.__module__
+    existing = [(c["prefix"], c["code"]) for c in catalogue(repo)]
+    return nodes, existing
+
+
 def translate(repo: Path):
     tree = ast.parse((repo / "refurb" / "gen.py").read_text("utf8"))
     fns = {n.name: n for n in tree.body if isinstance(n, ast.FunctionDef)}
@@ -70,16 +86,7 @@ def translate(repo: Path):
     holes = re.findall(r"(?<!\{)\{(\w+)\}(?!\})", tpl)
     if sorted(set(holes)) != sorted(EXPECTED_FORMAT):
         raise TranslateError(f"template holes {sorted(set(holes))} do not match the format arguments")
-    mp = mapping(repo / "refurb" / "visitor" / "mapping.py")
-    import mypy.nodes
-    import mypy.patterns
-    nodes = {}
-    for cls in mp.values():
-        obj = getattr(mypy.nodes, cls, None) or getattr(mypy.patterns, cls, None)
-        if obj is None:
-            raise TranslateError(f"node class {cls} not found in mypy")
-        nodes[cls] = obj.__module__
-    existing = [(c["prefix"], c["code"]) for c in catalogue(repo)]
+    nodes, existing = universe(repo)
     gen = ("From Lib Require Import Base.\nOpen Scope list_scope.\n"
            f"Definition nodes : list (string * string) := {coq.coq_list([f'({S(k)}, {S(v)})' for k, v in nodes.items()])}.\n"
            f"Definition existing_codes : list (string * N) := {coq.coq_list([f'({S(p)}, {c}%N)' for p, c in existing])}.\n"
@@ -127,15 +134,23 @@ def run(ctx: Ctx) -> None:
     except TranslateError as e:
         ctx.obligation("translate refurb/gen.py", False, str(e))
         gen = None
+        try:
+            nodes, existing = universe(REPO)      # the search below needs no model
+        except TranslateError as e2:
+            ctx.obligation("node table", False, str(e2))
+            ctx.resolve_broken({}, "")
+            return
     if gen is not None:
         b = coq.compile_props(ctx, {"GenGenTpl": gen}, ["GenGenTpl", "C19"])
         coq.record_build(ctx, b)
-    if gen is None:
-        ctx.resolve_broken({}, "")
-        return
     rng = ctx.rng
     names = sorted(nodes)
     sels = [[n] for n in names]
+    # selections whose sorted order alternates between the two modules node types come from
+    pats = [n for n in names if nodes[n].endswith("patterns")]
+    for _ in range(ctx.budget(25, 200)):
+        k = rng.randrange(3, 8)
+        sels.append(sorted(set(rng.sample(pats, min(len(pats), (k + 1) // 2)) + rng.sample(names, k // 2 + 1))))
     pairs = [sorted(p) for p in itertools.combinations(names, 2)]
     sels += pairs if ctx.tier == "thorough" else rng.sample(pairs, 120)
     sels += [sorted(rng.sample(names, rng.randrange(3, 9))) for _ in range(ctx.budget(30, 300))]
@@ -228,4 +243,4 @@ def run(ctx: Ctx) -> None:
         shutil.rmtree(td, ignore_errors=True)
         for k in [k for k in sys.modules if k.startswith("c19_g")]:
             del sys.modules[k]
-    ctx.resolve_broken({"imports_cover": "gen:", "next_id_free": "gen:wrong-code"}, b.first_error if b else "")
+    ctx.resolve_broken({"imports_cover": "gen:", "next_id_free": "gen:wrong-code", "translate refurb/gen.py": "gen:"}, b.first_error if b else "")
